@@ -716,6 +716,8 @@ class Domain:
         """a namespace-scope constant with an initialiser in the program (constexpr lookup tables, named constants): its
         initialiser, evaluated once.  Mutable globals stay outside the model."""
         qn = e.get("qn")
+        if (qn or "").startswith("std::memory_order"):
+            return Opaque("memory order")
         g = getattr(self.interp.prog, "globals", {}).get(qn) if self.interp is not None else None
         if g is not None and g.get("init") is not None and ("const" in (g.get("t") or "") or "constexpr" in (g.get("t") or "")):
             cache = self.__dict__.setdefault("_global_cache", {})
